@@ -88,6 +88,8 @@ def tasks(tier, seed):
     for b, vm in ([(4, 3.3), (6, 0.7)] if tier == "quick" else [(4, 3.3), (6, 0.7), (8, 1.8), (10, 0.2048), (12, 3.3), (8, 5.0)]):
         out.append({"fn": "sar_noise_fp", "kwargs": {"bits": b, "vmax": vm}, "label": f"sar_noise/zero_noise/fp,bits={b},vmax={vm}", "solver": "cvc5", "cross_check": False,
                     "caps": {"max_seconds": 400, "solver_timeout_ms": 120000}})
+    for b, sd in ([(25, "float32"), (8, "float32"), (12, "float16")] if tier == "quick" else [(26, "float32"), (32, "float32"), (8, "float32"), (24, "float32"), (12, "float16"), (16, "float16"), (10, "float16")]):
+        out.append({"fn": "sar_noise", "kwargs": {"bits": b, "sigdtype": sd}, "label": f"sar_noise/zero_noise/bits={b},{sd}", "caps": {"solver_timeout_ms": 120000, "max_seconds": 400}})
     for b in [4] if tier == "quick" else [4, 6, 8]:
         out.append({"fn": "sar_fp", "kwargs": {"bits": b, "vmax": 5.0}, "label": f"sar/fp/bits={b}", "solver": "cvc5", "cross_check": False,
                     "caps": {"max_seconds": 400, "solver_timeout_ms": 120000}})
@@ -278,11 +280,15 @@ class _ZeroNoiseRandom:
         return symnp.full(size, loc, dtype=float) if size is not None else loc
 
 
-def sar_noise(bits):
+def sar_noise(bits, sigdtype="float64"):
     mods = _mods()
     sar, sarn = mods[1], mods[2]
     x, y, vmax = vx.real("x"), vx.real("y"), vx.real("vmax")
     vx.assume(vmax > 0, "max_volt > 0")
+    sdt = np.dtype(sigdtype)
+    if sdt.itemsize < 8:
+        vx.assume((vmax <= 8) & (x >= -16) & (x <= 16) & (y >= -16) & (y <= 16), "narrow-float frames: voltages small enough to be held by the frame's own format")
+    symnp.NARROW_EVENTS.clear()
     with Patch() as p:
         p.numpy(ADC_MODS[1], ADC_MODS[2], ADC_MODS[3])
         import types
@@ -290,20 +296,36 @@ def sar_noise(bits):
         shim = types.ModuleType("symnp_zero_noise")
         shim.__getattr__ = lambda name: _ZeroNoiseRandom if name == "random" else getattr(symnp, name)  # type: ignore[attr-defined]
         p.attr(sarn, "np", shim, "np.random.normal(loc, 0) == loc")
-        a = sar.apply_sar_adc(signal_2d=symnp.SymArray.from_elems([x, y], (1, 2), np.float64), num_rows=1, num_cols=2,
+        a = sar.apply_sar_adc(signal_2d=symnp.SymArray.from_elems([x, y], (1, 2), sdt), num_rows=1, num_cols=2,
                               min_volt=0.0, max_volt=vmax, adc_bits=bits)
-        b = sarn.apply_sar_adc_with_noise(signal_2d=symnp.SymArray.from_elems([x, y], (1, 2), np.float64), num_rows=1, num_cols=2,
+        b = sarn.apply_sar_adc_with_noise(signal_2d=symnp.SymArray.from_elems([x, y], (1, 2), sdt), num_rows=1, num_cols=2,
                                           strengths=symnp.zeros(bits), noises=symnp.zeros(bits), max_volt=vmax, adc_bits=bits)
-    vx.prove(f"C16/sar_noise/zero_noise_equiv/bits={bits}", vx.all_of([u == v for u, v in zip(a.elems(), b.elems())]) & (a.dtype == b.dtype))
+    lab = f"bits={bits}" + ("" if sigdtype == "float64" else f",{sigdtype}")
+    if sdt.itemsize == 8 or bits <= 8:
+        vx.prove(f"C16/sar_noise/zero_noise_equiv/{lab}", vx.all_of([u == v for u, v in zip(a.elems(), b.elems())]) & (a.dtype == b.dtype))
+    if sdt.itemsize < 8:
+        # real arithmetic cannot see rounding, so every integer (code) the converters park in a float32 / float16 array must be
+        # small enough to be held exactly by that format; otherwise codes are silently rounded (bounds / full scale / equivalence lost)
+        limit = 2 ** (24 if sdt.itemsize == 4 else 11)
+        events = list(symnp.NARROW_EVENTS)
+        ok = []
+        for v, _ in events:
+            small = (v <= limit) & (v >= -limit)
+            ok.append(small if v.is_int else vx.implies(v.is_integer(), small))
+        vx.prove(f"C16/sar_noise/codes_stored_exactly/{lab}", vx.all_of(ok), numbers_stored_in_narrow_floats=len(events))
 
 
-def sar_noise_fp(bits, vmax):
+def sar_noise_fp(bits, vmax, sigdtype="float64"):
     """Exact IEEE-754: the noisy variant with all strengths and noises zero produces the very same code as sar_adc, for every
     finite double (the statement says "exactly" - rounding of intermediate results is part of it)."""
     mods = _mods()
     sar, sarn = mods[1], mods[2]
     x = vx.fp("x")
     vx.assume(~x.isnan(), "input voltage is not NaN")
+    sdt = np.dtype(sigdtype)
+    if sdt.itemsize < 8:
+        # the signal container also accepts float32 / float16 frames: x is a value of that format
+        vx.assume(x == x.round_to(8 * sdt.itemsize), f"the frame holds {sigdtype} values")
     core.FP_EVENTS.clear()
     with Patch() as p:
         p.numpy(ADC_MODS[1], ADC_MODS[2], ADC_MODS[3])
@@ -312,10 +334,15 @@ def sar_noise_fp(bits, vmax):
         shim = types.ModuleType("symnp_zero_noise")
         shim.__getattr__ = lambda name: _ZeroNoiseRandom if name == "random" else getattr(symnp, name)  # type: ignore[attr-defined]
         p.attr(sarn, "np", shim, "np.random.normal(loc, 0) == loc")
-        a = sar.apply_sar_adc(signal_2d=symnp.SymArray.from_elems([x], (1, 1), np.float64), num_rows=1, num_cols=1, min_volt=0.0, max_volt=vmax, adc_bits=bits)
-        b = sarn.apply_sar_adc_with_noise(signal_2d=symnp.SymArray.from_elems([x], (1, 1), np.float64), num_rows=1, num_cols=1,
+        a = sar.apply_sar_adc(signal_2d=symnp.SymArray.from_elems([x], (1, 1), sdt), num_rows=1, num_cols=1, min_volt=0.0, max_volt=vmax, adc_bits=bits)
+        b = sarn.apply_sar_adc_with_noise(signal_2d=symnp.SymArray.from_elems([x], (1, 1), sdt), num_rows=1, num_cols=1,
                                           strengths=np.zeros(bits), noises=np.zeros(bits), max_volt=vmax, adc_bits=bits)
-    vx.prove(f"C16/sar_noise/zero_noise_equiv/fp,bits={bits},vmax={vmax}", (a.elems()[0] == b.elems()[0]) & (a.dtype == b.dtype))
+    lab = f"fp,bits={bits},vmax={vmax}" + ("" if sigdtype == "float64" else f",{sigdtype}")
+    vx.prove(f"C16/sar_noise/zero_noise_equiv/{lab}", (a.elems()[0] == b.elems()[0]) & (a.dtype == b.dtype))
+    if sdt.itemsize < 8:
+        cb = b.elems()[0]
+        vx.prove(f"C16/sar_noise/bounds/{lab}", (cb >= 0) & (cb <= 2**bits - 1))
+        vx.prove(f"C16/sar_noise/full_scale/{lab}", vx.implies(x >= vmax, cb == 2**bits - 1))
 
 
 # ------------------------------------------------------------------------------------------------
@@ -378,15 +405,28 @@ def replay(oid, kwargs, model, data):
         return False, det
     if fn == "sar_noise_fp":
         bits, vmax, x = kwargs["bits"], kwargs["vmax"], _f(model.get("x"))
-        a = apply_sar_adc(np.array([[x]], dtype=float), 1, 1, 0.0, vmax, bits)
-        b = apply_sar_adc_with_noise(np.array([[x]], dtype=float), 1, 1, np.zeros(bits), np.zeros(bits), vmax, bits)
-        return (not np.array_equal(a, b) or a.dtype != b.dtype), {"x": x.hex(), "sar": a.tolist(), "noisy_with_zero_noise": b.tolist()}
+        sdt = np.dtype(kwargs.get("sigdtype", "float64"))
+        a = apply_sar_adc(np.array([[x]], dtype=sdt), 1, 1, 0.0, vmax, bits)
+        b = apply_sar_adc_with_noise(np.array([[x]], dtype=sdt), 1, 1, np.zeros(bits), np.zeros(bits), vmax, bits)
+        det = {"x": x.hex(), "signal_dtype": str(sdt), "sar": a.tolist(), "noisy_with_zero_noise": b.tolist(), "full_scale": 2**bits - 1}
+        if "/bounds/" in oid:
+            return bool(int(b[0, 0]) > 2**bits - 1), det
+        if "/full_scale/" in oid:
+            return bool(x >= vmax and int(b[0, 0]) != 2**bits - 1), det
+        return (not np.array_equal(a, b) or a.dtype != b.dtype), det
     if fn == "sar_noise":
         bits = kwargs["bits"]
+        sdt = np.dtype(kwargs.get("sigdtype", "float64"))
         vmax, x, y = _f(model.get("vmax")), _f(model.get("x")), _f(model.get("y"))
-        a = apply_sar_adc(np.array([[x, y]], dtype=float), 1, 2, 0.0, vmax, bits)
-        b = apply_sar_adc_with_noise(np.array([[x, y]], dtype=float), 1, 2, np.zeros(bits), np.zeros(bits), vmax, bits)
-        return (not np.array_equal(a, b) or a.dtype != b.dtype), {"sar": a.tolist(), "noisy": b.tolist()}
+        if "codes_stored_exactly" in oid:
+            # the witness says which voltage makes a large code; the clearest concrete evidence is full scale itself
+            vmax, x, y = 4.0, 4.0, 8.0
+        a = apply_sar_adc(np.array([[x, y]], dtype=sdt), 1, 2, 0.0, vmax, bits)
+        b = apply_sar_adc_with_noise(np.array([[x, y]], dtype=sdt), 1, 2, np.zeros(bits), np.zeros(bits), vmax, bits)
+        det = {"signal_dtype": str(sdt), "vmax": vmax, "x": [x, y], "sar": a.tolist(), "noisy_with_zero_noise": b.tolist(), "full_scale": 2**bits - 1}
+        if "codes_stored_exactly" in oid:
+            return bool(int(a[0, 0]) != 2**bits - 1 or int(b[0, 0]) != 2**bits - 1 or int(b[0, 1]) != 2**bits - 1), det
+        return (not np.array_equal(a, b) or a.dtype != b.dtype), det
     if fn == "dtype_width":
         b = int(model.get("bits", 0))
         try:
